@@ -1075,6 +1075,8 @@ static iwrc _jbl_ptr_pool(const char *path, struct jbl_ptr **jpp, struct iwpool 
     for (i = 0; path[i]; ++i) {
       if (path[i] == '/') {
         ++cnt;
+      } else if ((path[i] == '~') && (path[i + 1] != '0') && (path[i + 1] != '1')) {
+        return JBL_ERROR_JSON_POINTER; // RFC 6901: '~' must be followed by '0' or '1'
       }
     }
   }
